@@ -137,11 +137,12 @@ def get_max_angle(
     largest configured scale. The redshift is either the lowest redshift bin
     center or a lower bound of ``redshift_limit``.
     """
-    min_redshift = max(config.binning.zmin, redshift_limit)
-    _, ang_max = config.scales.scales.get_angle_radian(
-        min_redshift, cosmology=config.cosmology
+    # pairs are counted with the scales converted at the bin centers
+    ang_max = max(
+        config.scales.scales.get_angle_radian(zmid, cosmology=config.cosmology)[1].max()
+        for zmid in config.binning.binning.mids
     )
-    return AngularDistances(ang_max.max())
+    return AngularDistances(ang_max)
 
 
 class PatchLinkage:
